@@ -178,6 +178,11 @@ func (d *Directory) AddTimeBucket(tbk *io.TimeBucketKey, f *io.TimeBucketInfo) (
 	d.Lock()
 	defer d.Unlock()
 
+	// refuse a schema the file header cannot hold (names would be cut to 32 bytes silently)
+	if err = io.CheckHeaderCapacity(f.GetElementNames()); err != nil {
+		return fmt.Errorf("cannot create bucket %s: %w", tbk.GetItemKey(), err)
+	}
+
 	catkeySplit := tbk.GetCategories()
 	datakeySplit := tbk.GetItems()
 
